@@ -55,7 +55,7 @@ def gen_matrix(ctx):
     all_ops = G.ASSIGN_OPS + [nm for _, nm in POST_PRE]
     targets = list(G.TARGETS)
     stmt_forms = list(G.STMT_FORMS)
-    full = ctx.thorough
+    full = True        # the whole matrix in both tiers (the plain build runs ~1500 models/s); thorough adds sanitizers on all of it
     core_ctx = {"guard", "invariant", "sync-index", "probability", "select-domain", "init-global", "init-template", "init-local",
                 "array-size", "range-bound", "typedef-range-bound", "inst-arg", "quantified-body-guard", "quantified-body-exists",
                 "quantified-body-sum", "quantified-body-function", "assertion", "query-AG", "query-EF", "query-leadsto", "query-quantified"}
@@ -72,7 +72,7 @@ def gen_matrix(ctx):
             add(cn, twin_expr(cx, "(%s + 1)" % G.TARGETS[t]), "", "accept", "ctx=%s/twin/direct-target/%s" % (cn, t))
         # B. call of a writer: the write sits in every statement form
         for form in (stmt_forms if not light else r.sample(stmt_forms, 5)):
-            wes = G.WRITE_EXPRS if full else [G.WRITE_EXPRS[0], r.choice(G.WRITE_EXPRS[1:])]
+            wes = G.WRITE_EXPRS if full else [G.WRITE_EXPRS[0], r.choice(G.WRITE_EXPRS[1:10]), r.choice(G.WRITE_EXPRS[10:])]
             for we in wes:
                 add(cn, "wr()", G.writer_function("wr", form, we, False), "reject", "ctx=%s/call/%s/%s" % (cn, form, we))
             tw = "loc + 1" if form == "local-init" else r.choice(G.WRITE_EXPRS[:8])
@@ -177,10 +177,49 @@ def gen_template_scope(ctx):
                         text, kind = G.xml_model(**kw), "xml"
                     cases.append(G.Case("t%d" % k, kind, text, [], "accept" if twin else "reject", [] if twin else cx["allowed"],
                                         "ctx=%s/template-scope/%s/%s/%s" % (cn, "twin" if twin else "call", where, form)))
-    if not ctx.thorough:
-        r.shuffle(cases)
-        cases = cases[:240]
     return cases
+
+
+# ------------------------------------------------------------------------------------------------------------------
+# queries that call a function of a process: `P.f()`
+
+def gen_process_dot(ctx):
+    r = ctx.rng
+    cases, k = [], 0
+    queries = [("query-AG", "A[] %s == 1", G.SE % "Property"), ("query-EF", "E<> %s == 1", G.SE % "Property"),
+               ("query-leadsto", "%s == 1 --> P.s1", G.SE % "Property"), ("query-sup", "sup: %s", G.SE % "Expression"),
+               ("query-quantified", "A[] forall (qi : int[0,1]) %s == 1", G.SE % "Property")]
+    forms = list(G.STMT_FORMS) if ctx.thorough else ["expr", "return", "do-cond"] + r.sample([f for f in G.STMT_FORMS if f not in ("expr", "return", "do-cond", "local-init")], 2)
+    for qn, q, diag in queries:
+        for form in forms:
+            for what, fn_write, fn_twin, call, tcall in [
+                ("template-variable", G.writer_function("twr", form, "w = 1", False).replace("w = 1", "tw = 1"),
+                 G.writer_function("twr", form, "loc + 1" if form == "local-init" else "w = 1", form != "local-init"), "P.twr()", "P.twr()"),
+                ("global-variable", G.writer_function("twr", form, "w = 1", False),
+                 G.writer_function("twr", form, "loc + 1" if form == "local-init" else "w = 1", form != "local-init"), "P.twr()", "P.twr()"),
+                ("chain", G.writer_function("tw0", form, "w = 1", False).replace("w = 1", "tw = 1") + "\nint twr() { return tw0(); }",
+                 G.writer_function("tw0", form, "loc + 1" if form == "local-init" else "w = 1", form != "local-init") + "\nint twr() { return tw0(); }", "P.twr()", "P.twr()"),
+                ("reference-parameter", "int twr(int &r) { r = 1; return 1; }", "int twr(int r) { r = 1; return 1; }", "P.twr(w)", "P.twr(w)"),
+            ]:
+                if form == "local-init" and what != "chain":
+                    continue
+                for twin in (False, True):
+                    k += 1
+                    tdecl = "int tw;\n" + (fn_twin if twin else fn_write)
+                    text = G.xml_model(gdecl=G.BASE_DECL, tdecl=tdecl)
+                    cases.append(G.Case("d%d" % k, "xml", text, [q % (tcall if twin else call)], "accept" if twin else "reject",
+                                        [] if twin else [diag], "ctx=%s/process-dot/%s/%s/%s" % (qn, "twin" if twin else "call", what, form)))
+    return cases
+
+
+C11_EXCEPTION_PREFIX = {"call-through-process-dot": "/process-dot/call/"}
+C11_WHAT = {
+    "call-through-process-dot": "a query that calls a function of a process as `P.f()` is accepted although `f` writes (a template variable, "
+                                "a global, through a chain of calls or through a reference parameter): collect_possible_writes looks up "
+                                "get(0).get_symbol(), which for the callee `P.f` is the process `P`, so neither f's `changes` nor its reference "
+                                "arguments are added and changes_any_variable() is false; e.g. `A[] P.twr() == 1` with `int twr() { w = 1; return 1; }` "
+                                "in P's template gives no diagnostic",
+}
 
 
 # ------------------------------------------------------------------------------------------------------------------
@@ -344,7 +383,7 @@ class RandProg:
 def gen_random_programs(ctx):
     r = ctx.rng
     cases = []
-    nprog = 220 if not ctx.thorough else 2500
+    nprog = 800 if not ctx.thorough else 6000
     se = {"guard": G.SE % "Guard", "invariant": G.SE % "Invariant", "sync": G.SE % "Synchronisation", "query": G.SE % "Property"}
     for pi in range(nprog):
         prog = RandProg(r, r.randint(2, 7))
@@ -408,10 +447,11 @@ def run(ctx):
     tie_error = None
     try:
         _, kinds = core.regen_kinds()
-        text, info = effects.translate(core.REPO, {k for k, _ in kinds})
+        text, info = effects.translate(core.REPO, {k for k, _ in kinds}, strict_c13=False)
         core.write_if_changed(GEN, text)
         cov["translated"] = {"write_lhs_kinds": len(info["write_lhs"]), "get_symbols_rows": len(info["get_symbols"]),
-                             "statement_classes": len(info["classes"]), "check_sites": info["sites"]}
+                             "statement_classes": len(info["classes"]), "check_sites": info["sites"],
+                             "parts_only_C13_reads_that_changed": info["c13_only_errors"]}
     except effects.TranslateError as ex:
         tie_error = str(ex)
         ctx.log("translator failed:", ex)
@@ -425,14 +465,49 @@ def run(ctx):
         broken = core.failing_theorems(log)
         ctx.log("proof broken:", broken or log[-1500:])
     # 4 search: direct oracle on the implementation -----------------------------------------------------------------
-    b = core.build_repo("asan")
-    exe = core.build_harness(b, "c11", ["c11.cpp"])
-    cases = gen_matrix(ctx) + gen_template_scope(ctx) + gen_random_programs(ctx)
+    cases = gen_matrix(ctx) + gen_template_scope(ctx) + gen_process_dot(ctx) + gen_random_programs(ctx)
     ctx.log("generated %d models" % len(cases))
-    recs, crashes = G.run_harness(core, exe, cases)
+    recs, crashes, differ, nsan = G.run_both(core, "c11", "c11.cpp", cases, ctx.thorough, ctx.log)
+    cov["models_also_run_under_sanitizers"] = nsan
+    for c in differ[:3]:
+        ctx.finding("build-variant:" + c.shape, "diagnostics differ between the -O2 and the ASan+UBSan build of the library", c.replay_obj())
     for bad, rc, err in crashes:
         ctx.finding("crash:" + shape_key(bad.shape), "harness died (rc=%s) on a generated model" % rc,
                     dict(bad.replay_obj(), stderr=err))
+    # 3 correspondence: model vs implementation on the real trees -----------------------------------------------------
+    ncorr, ndis, nfun, nctx = 0, 0, 0, 0
+    have_drv = os.path.exists(core.lean_exe("drv_c11"))
+    if not ok and have_drv and not tie_error:
+        have_drv = core.lake_build(["drv_c11"])[0]
+    first_dis = None
+    exceptions = None
+    if have_drv and not tie_error:
+        drv, rc, err = G.run_driver(core, core.lean_exe("drv_c11"), recs)
+        for c in cases:
+            rec = recs.get(c.cid)
+            if rec is None or not rec["analysed"] or not rec["mline"]:
+                continue
+            ncorr += 1
+            nfun += len(rec["FI"])
+            nctx += G.own_contexts(rec)
+            dv = drv.get(c.cid)
+            if dv and dv["exceptions11"] is not None:
+                exceptions = dv["exceptions11"]
+            d = G.diff_model(rec, dv)
+            if d:
+                ndis += 1
+                if first_dis is None:
+                    first_dis = (c, d)
+        if rc != 0:
+            first_dis = first_dis or (cases[0], ["drv_c11 exited with %s: %s" % (rc, err[-500:])])
+            ndis += 1
+    cov["computed_exception_set"] = exceptions
+    if exceptions is None:
+        # no model answer (translation or build broken): the listed findings still explain their own witnesses
+        exceptions_for_oracle = [k["key"] for k in ctx.known_db if k["key"] in C11_EXCEPTION_PREFIX]
+    else:
+        exceptions_for_oracle = exceptions
+    confirmed = {}
     nviol, verdicts, dist = 0, {"reject": 0, "accept": 0, "none": 0}, {}
     samples = []
     for c in cases:
@@ -444,6 +519,10 @@ def run(ctx):
         top = c.shape.split("/")[0]
         dist[top] = dist.get(top, 0) + 1
         if c.expect == "reject" and not any(a in errs for a in c.allowed):
+            ex = [x for x in exceptions_for_oracle if C11_EXCEPTION_PREFIX.get(x, "\0") in c.shape]
+            if ex:
+                confirmed.setdefault(ex[0], c)     # the exception's witness is accepted by the real library
+                continue
             nviol += 1
             if nviol <= MAX_REPORTED:
                 ctx.finding("accepted-write:" + shape_key(c.shape),
@@ -456,36 +535,26 @@ def run(ctx):
                         "the write-free twin is rejected: %r" % (errs or rec["exc"]), dict(c.replay_obj(), observed_diagnostics=errs))
         if len(samples) < 4 and c.expect and c.cid.endswith("7"):
             samples.append({"shape": c.shape, "expect": c.expect, "diagnostics": errs})
+    # every computed exception must be confirmed on the real library, and is a finding (known or not)
+    for ex in exceptions_for_oracle:
+        c = confirmed.get(ex)
+        if c is None:
+            if nviol == 0:
+                ctx.finding("unproved:exception-not-confirmed:" + ex,
+                            "the Lean model computes exception %s but the real library rejects all its witnesses" % ex,
+                            {"exception": ex}, no_input=True)
+        else:
+            ctx.finding(ex, C11_WHAT.get(ex, ex), dict(c.replay_obj(), lean_witness="UtapModel.C11.C11_witness_process_dot"))
+    cov["exceptions_confirmed_on_implementation"] = sorted(confirmed)
     cov["oracle_cases_on_implementation"] = sum(verdicts.values())
     cov["oracle_expectations"] = verdicts
     cov["oracle_failures"] = nviol
-    # 3 correspondence: model vs implementation on the real trees -----------------------------------------------------
-    ncorr, ndis, nfun, nctx = 0, 0, 0, 0
-    have_drv = os.path.exists(core.lean_exe("drv_c11"))
-    if not ok and have_drv and not tie_error:
-        have_drv = core.lake_build(["drv_c11"])[0]
-    first_dis = None
-    if have_drv and not tie_error:
-        drv, rc, err = G.run_driver(core, core.lean_exe("drv_c11"), recs)
-        for c in cases:
-            rec = recs.get(c.cid)
-            if rec is None or not rec["analysed"] or not rec["mline"]:
-                continue
-            ncorr += 1
-            nfun += len(rec["FI"])
-            nctx += len(rec["X"])
-            d = G.diff_model(rec, drv.get(c.cid))
-            if d:
-                ndis += 1
-                if first_dis is None:
-                    first_dis = (c, d)
-        if rc != 0:
-            first_dis = first_dis or (cases[0], ["drv_c11 exited with %s: %s" % (rc, err[-500:])])
-            ndis += 1
     cov["correspondence_cases"] = ncorr
     cov["correspondence_function_sets_compared"] = nfun
     cov["correspondence_context_expressions_compared"] = nctx
     cov["correspondence_disagreements"] = ndis
+    cov["hypotheses_validated_on_real_programs"] = {"declaredBeforeUse (C11_sound / C13_sound)": ncorr - ndis if ncorr else 0,
+                                                   "how": "drv evaluates the decidable hypothesis on every dumped program; a failure counts as a disagreement"}
     if first_dis and nviol == 0:
         c, d = first_dis
         ctx.finding("unproved:correspondence:effects", "Lean model and library disagree on %d of %d models; first: %s"
